@@ -794,6 +794,10 @@ uint64_t w_locked_b(int) { return locked_cache(0x7654321u) ^ (locked_cache(99) <
 namespace c18 {
 uint64_t sweep_build_serialize(int scale);      // harness/C18_sweep.cpp
 uint64_t sweep_parse_getters(int scale);
+uint64_t desc_kept_a(int); uint64_t desc_kept_b(int);        // harness/C18_descend.cpp
+uint64_t desc_gone_a(int); uint64_t desc_gone_b(int);
+uint64_t desc_bythread_a(int); uint64_t desc_bythread_b(int);
+uint64_t canary_cow_a(int); uint64_t canary_cow_b(int);
 const Workload kWorkloads[] = {
     {"parse_eth_ip_tcp", w_parse_tcp, LIBTINS},
     {"parse_dns", w_parse_dns, LIBTINS},
@@ -810,15 +814,24 @@ const Workload kWorkloads[] = {
     {"icmpv6_dhcpv6_options", w_options6, LIBTINS},
     {"sweep_build_serialize", sweep_build_serialize, LIBTINS},
     {"sweep_parse_getters", sweep_parse_getters, LIBTINS},
+    {"desc_ancestor_kept_a", desc_kept_a, DESCENDANT},
+    {"desc_ancestor_kept_b", desc_kept_b, DESCENDANT},
+    {"desc_ancestor_gone_a", desc_gone_a, DESCENDANT},
+    {"desc_ancestor_gone_b", desc_gone_b, DESCENDANT},
+    {"desc_ancestor_freed_by_a", desc_bythread_a, DESCENDANT},
+    {"desc_ancestor_freed_by_a_b", desc_bythread_b, DESCENDANT},
     {"canary_racy_a", w_canary_a, CANARY_RACY},
     {"canary_racy_b", w_canary_b, CANARY_RACY},
     {"canary_guarded_a", w_guarded_a, CANARY_GUARDED},
     {"canary_guarded_b", w_guarded_b, CANARY_GUARDED},
     {"canary_locked_a", w_locked_a, CANARY_LOCKED},
     {"canary_locked_b", w_locked_b, CANARY_LOCKED},
+    {"canary_copyshare_a", canary_cow_a, CANARY_COPYSHARE},
+    {"canary_copyshare_b", canary_cow_b, CANARY_COPYSHARE},
 };
 const int kNumWorkloads = sizeof(kWorkloads) / sizeof(kWorkloads[0]);
 const int kNumLibtins = 15;
+const int kNumDescendant = 6;
 
 void setup_registry() {
     Allocators::register_allocator<EthernetII, UserPDU<0> >(0x88b5);
